@@ -158,6 +158,11 @@ func RootCause(err error) error {
 	// at the first error that dig did not create, even if that error wraps
 	// a dig.Error of its own.
 	for {
+		if cf, ok := de.(errConstructorFailed); ok {
+			// Whatever the constructor returned is the root cause, even if
+			// it is a dig.Error itself (the failure of another container).
+			return cf.Reason
+		}
 		cause := errors.Unwrap(de)
 		if cause == nil {
 			return de
